@@ -188,6 +188,9 @@ func (r *Run) nontrivial() bool {
 	case "C09":
 		// a state with denied cross-namespace references was judged after an incremental update
 		return p["c09_denied_refs_states"] >= 1 && r.reconciles >= 2
+	case "C17":
+		// something was wanted, and the signer took at least one decision
+		return p["acme_wanted_states"] >= 1 && p["acme_queue_add"] >= 1 && r.reconciles >= 2
 	case "C10":
 		// something was admitted and something else was not, judged after an incremental update
 		return p["c10_admitted_http"]+p["c10_admitted_tcp"] >= 1 && r.reconciles >= 2
